@@ -710,6 +710,118 @@ fn run_c06_doc(d: &DocSpec, ctx: &mut Ctx) {
             }
         }
     }
+    // second generation: the loaded picture saved compressed again is a conforming stream for the same cells
+    // (a loaded buffer differs from a built one in what is stored behind the picture: rows of the 80x25 start buffer, lazily stored lines)
+    for (which, loaded) in [("compressed", &lc), ("uncompressed", &lr)] {
+        ctx.count("transitions", rows);
+        match save(loaded, Fmt::Xb, true, false) {
+            Err(e) => {
+                ctx.violation(format!("diff:xb:c06:second-generation:save:{}", if e.starts_with("PANIC") { e.clone() } else { "refused".into() }), json!({"doc": d.json(), "first_generation": which, "error": e}));
+                return;
+            }
+            Ok(again) => match decode_xbin(&again) {
+                Err(e) => {
+                    ctx.violation("diff:xb:c06:second-generation:spec-decoder:rejects", json!({"doc": d.json(), "first_generation": which, "error": e}));
+                    return;
+                }
+                Ok(dec) => {
+                    let cells = d.cells();
+                    let bad = if let Some(p) = dec.problems.first() {
+                        Some(format!("problem: {p}"))
+                    } else if dec.trailing != 0 {
+                        Some(format!("{} bytes follow the last row", dec.trailing))
+                    } else if dec.w != d.w || dec.h != d.h {
+                        Some(format!("size {}x{}", dec.w, dec.h))
+                    } else if dec.cells.len() != cells.len() || cells.iter().enumerate().any(|(i, c)| dec.cells[i] != (c.ch as u8, cell_attr_byte(c, d.ice, true))) {
+                        Some("cells differ from the source".to_string())
+                    } else {
+                        None
+                    };
+                    if let Some(b) = bad {
+                        ctx.violation(format!("diff:xb:c06:second-generation:{}", b.split(':').next().unwrap_or("").split(' ').last().unwrap_or("")), json!({"doc": d.json(), "first_generation": which, "what": b}));
+                        return;
+                    }
+                }
+            },
+        }
+    }
+}
+
+const C06_LAYER_VARIANTS: usize = 24;
+
+/// a document built in several steps: background rows with runs, then (variant) a second layer on top / a moved base layer / a hidden layer.
+/// compressed and uncompressed files must both show the merged picture, and the compressed stream must conform.
+fn run_c06_layers(variant: usize, ctx: &mut Ctx) {
+    let (w, h) = ([5, 16, 80][variant % 3], 3);
+    let kind = (variant / 3) % 4; // 0 second opaque layer, 1 second alpha layer, 2 base layer moved, 3 hidden layer on top
+    let ice = variant / 12 == 1;
+    let mut buf = new_buffer(w, h, if ice { IceMode::Ice } else { IceMode::Blink });
+    for y in 0..h {
+        for x in 0..w {
+            // runs of equal cells, equal characters and equal attributes
+            let c = Cell::new((b'a' as i32 + (x / 3 + y) % 3) as u32, (1 + (x / 2) % 3) as u32, ((x / 4 + y) % 2) as u32);
+            put(&mut buf, x, y, &c);
+        }
+    }
+    match kind {
+        0 | 1 | 3 => {
+            let mut l = icy_engine::Layer::new("top", (w.min(4), 2));
+            l.properties.has_alpha_channel = kind == 1;
+            l.set_offset((1.min(w - 1), 1));
+            for y in 0..2 {
+                for x in 0..w.min(4) {
+                    if kind == 1 && (x + y) % 2 == 0 {
+                        continue;
+                    }
+                    l.set_char((x, y), Cell::new(b'Z' as u32, 14, 4).to_char());
+                }
+            }
+            l.properties.is_visible = kind != 3;
+            buf.layers.push(l);
+        }
+        _ => buf.layers[0].set_offset((1, 0)),
+    }
+    ctx.count("evaluations", 1);
+    ctx.count("nontrivial", 1);
+    ctx.count("transitions", 4);
+    let what = json!({"width": w, "height": h, "ice": ice, "variant": (["second opaque layer", "second alpha layer", "base layer moved by (1,0)", "hidden layer on top"][kind])});
+    let (comp, raw) = match (save(&buf, Fmt::Xb, true, false), save(&buf, Fmt::Xb, false, false)) {
+        (Ok(a), Ok(b)) => (a, b),
+        (a, b) => {
+            ctx.violation("diff:xb:c06:layers:save", json!({"doc": what, "compressed": a.err(), "uncompressed": b.err()}));
+            return;
+        }
+    };
+    let (lc, lr) = match (load(Fmt::Xb, &comp), load(Fmt::Xb, &raw)) {
+        (Ok(a), Ok(b)) => (a, b),
+        (a, b) => {
+            ctx.violation("diff:xb:c06:layers:load-refused-own-output", json!({"doc": what, "compressed": a.err(), "uncompressed": b.err()}));
+            return;
+        }
+    };
+    let mut f = Fnv::new();
+    f.bytes(&comp);
+    ctx.state(f.finish());
+    for y in 0..h {
+        for x in 0..w {
+            let s0 = shown(&buf, x, y);
+            let (a, b) = (shown(&lc, x, y), shown(&lr, x, y));
+            // cells no layer covers are invisible in the source and blank in a file
+            let same = |p: &Shown, q: &Shown| if !q.visible { matches!(p.ch, 0 | 32) } else { p.ch == q.ch && p.fg == q.fg && p.bg == q.bg };
+            if a.ch != b.ch || a.fg != b.fg || a.bg != b.bg || !same(&a, &s0) {
+                ctx.violation("diff:xb:c06:layers:compressed-vs-uncompressed-vs-merged-picture", json!({"doc": what, "x": x, "y": y, "merged_source": shown_json(&s0), "compressed": shown_json(&a), "uncompressed": shown_json(&b)}));
+                return;
+            }
+        }
+    }
+    match decode_xbin(&comp) {
+        Err(e) => ctx.violation("diff:xb:c06:layers:spec-decoder:rejects", json!({"doc": what, "error": e})),
+        Ok(dec) => {
+            if !dec.problems.is_empty() || dec.trailing != 0 || dec.w != w || dec.h != h {
+                ctx.violation("diff:xb:c06:layers:spec-decoder", json!({"doc": what, "problems": dec.problems, "trailing": dec.trailing, "size": [dec.w, dec.h]}));
+            }
+        }
+    }
 }
 
 // ------------------------------------------------------------------ re-save stability (C05, second sentence)
@@ -778,6 +890,8 @@ fn resave(fmt: Fmt, desc: &str, bytes: &[u8], ctx: &mut Ctx) {
 enum Job {
     Doc(DocSpec),
     C06(DocSpec),
+    /// documents that were built in several steps: a second layer on top, a moved base layer (the writers see the merged picture)
+    C06Layers(usize),
     /// a batch of enumerated rows, generated when the job runs (36 M rows do not fit into every worker's memory)
     C06Rows { width: u32, base: u64, n: u64, small: bool, ice: bool },
     Resave(Fmt, String, Vec<u8>),
@@ -1060,6 +1174,9 @@ fn build_c06(tier: &str) -> (Vec<Job>, Value) {
             }
         }
     }
+    for v in 0..C06_LAYER_VARIANTS {
+        jobs.push(Job::C06Layers(v));
+    }
     // identical adjacent rows, heights 1..3 (a run must not continue into the next row)
     for w in [1, 2, 3, 5, 64, 65] {
         for v in [0usize, 4, 10] {
@@ -1090,6 +1207,7 @@ impl Engine for BinFmt {
                 ctx.count("nontrivial", 1);
             }
             Job::C06(d) => run_c06_doc(d, ctx),
+            Job::C06Layers(v) => run_c06_layers(*v, ctx),
             Job::C06Rows { width, base, n, small, ice } => run_c06_doc(&c06_doc(c6_rows_batch(*width, *base, *n, *small), *width as i32, *ice), ctx),
             Job::Resave(f, desc, bytes) => resave(*f, desc, bytes, ctx),
         }
@@ -1098,6 +1216,7 @@ impl Engine for BinFmt {
         match &self.jobs[idx as usize] {
             Job::Doc(d) => json!({"engine": "binfmt", "idx": idx, "doc": d.json(), "key": format!("binfmt:{}", d.fmt.ext())}),
             Job::C06(d) => json!({"engine": "xbin-compression", "idx": idx, "doc": d.json(), "key": "xbin-compression"}),
+            Job::C06Layers(v) => json!({"engine": "xbin-compression", "idx": idx, "layered_document_variant": v, "key": "xbin-compression"}),
             Job::C06Rows { width, base, n, small, ice } => json!({"engine": "xbin-compression", "idx": idx, "rows": format!("rows {base}..{} of width {width} over the {} value alphabet", base + n, if *small { 8 } else { 18 }), "ice": ice, "key": "xbin-compression"}),
             Job::Resave(f, desc, bytes) => json!({"engine": "resave", "idx": idx, "format": f.ext(), "file": desc, "bytes": vharness::bytes_to_json(&bytes[..bytes.len().min(6000)]), "len": bytes.len(), "key": format!("resave:{}", f.ext())}),
         }
@@ -1115,7 +1234,7 @@ impl Engine for BinFmt {
         for j in &self.jobs {
             match j {
                 Job::Doc(_) => docs += 1,
-                Job::C06(_) | Job::C06Rows { .. } => c6 += 1,
+                Job::C06(_) | Job::C06Rows { .. } | Job::C06Layers(_) => c6 += 1,
                 Job::Resave(..) => rs += 1,
             }
         }
